@@ -339,6 +339,12 @@ pub fn get_best_move_entry(
         return Some((moves.first().copied(), 0, true));
     }
 
+    // Checkmate or stalemate: there is nothing to search, and nothing to cache
+    // (an exact entry with this score would overflow the windows of later searches)
+    if moves.is_empty() {
+        return Some((None, Score::MIN + 1, true));
+    }
+
     let mut killer_moves = [None; 32];
     let mut best_move = None;
     let mut best_score = Score::MIN + 1;
